@@ -1,12 +1,11 @@
 CONSTANTS
   GC = FALSE
   Broken = "none"
-  MaxLen = 3
-  Family = "syntax"
-  SharedFiles = FALSE
+  MaxLen = 2
+  Family = "files"
+  SharedFiles = TRUE
   SharedSyntax = FALSE
 SPECIFICATION Spec
 INVARIANT Isolated
 INVARIANT IsolatedPrefix
-INVARIANT Emit
 CHECK_DEADLOCK FALSE
